@@ -161,6 +161,70 @@ class C07(Prop):
             for _ in range(6):
                 s, e = rnd.choice(pts), rnd.choice(pts)
                 cases.append(Case('rangepair %d %s %s %s %s' % (k, tk, enc(s), enc(e), rnd.choice(['incl', 'excl'])), 'rangepair'))
+        # ---- overloads that take units (util::positionToIndex): every pair is scaled by the factor of ITS OWN unit
+        UV = {'s': 1.0, 'ms': 1e-3, 'us': 1e-6, 'ks': 1e3, 'ns': 1e-9}
+        UG = {'V': 1.0, 'mV': 1e-3, 'uV': 1e-6, 'kV': 1e3}
+        def upick(tab, du, x, u):
+            return x if u == 'none' or du in ('-', 'none') or u not in tab else x * tab[du] / tab[u]
+        n_u = 40 if quick else 400 * scale
+        for _ in range(n_u):
+            tab = rnd.choice([UV, UV, UG])
+            du = rnd.choice(list(tab) + ['-']) if rnd.random() < 0.9 else 'none'
+            if du == 'none':
+                du = '-'
+            if rnd.random() < 0.6:
+                dt = rnd.choice([0.1, 0.5, 1.0, 0.001, 2.5, 1.0 / 3.0]); off = rnd.choice([None, 0.3, -2.0])
+                o = off or 0.0
+                head = 's %s %s' % (enc(dt), enc(off) if off is not None else '-')
+                coord = lambda i: i * dt + o
+                top = 2000
+            else:
+                k = rnd.choice([2, 3, 5, 8])
+                t = sorted(set(round(rnd.uniform(-5, 50), rnd.choice([0, 1, 3])) for _ in range(k)))
+                k = len(t)
+                head = 'r %d %s' % (k, ' '.join(enc(x) for x in t))
+                coord = lambda i: t[min(i, k - 1)]
+                top = k
+            m = rnd.choice([1, 2, 3, 3, 4, 5])
+            pool = list(tab) + ['none']
+            pat = rnd.choice(['uniform', 'aba', 'mixed', 'none-after', 'mixed'])
+            u0 = rnd.choice(pool)
+            units = []
+            for i in range(m):
+                if pat == 'uniform':
+                    units.append(u0)
+                elif pat == 'aba':
+                    units.append(u0 if i % 2 == 0 else rnd.choice([x for x in pool if x != u0]))
+                elif pat == 'none-after':
+                    units.append(u0 if i == 0 else 'none')
+                else:
+                    units.append(rnd.choice(pool))
+            if rnd.random() < 0.06:
+                units[rnd.randrange(m)] = rnd.choice(['Hz', 'mA', 'foo', ''.join(rnd.sample('kmV', 2))])
+            trip = []
+            for u in units:
+                a, b = sorted([rnd.randrange(0, top), rnd.randrange(0, top)])
+                xs, xe = coord(a), coord(b)
+                if rnd.random() < 0.3:
+                    xe = xe + rnd.choice([0.25, -0.25]) * (coord(1) - coord(0) if top > 1 else 1.0)
+                trip += [enc(upick(tab, du, xs, u)), enc(upick(tab, du, xe, u)), u]
+            sizes_ok = rnd.random() > 0.04
+            if not sizes_ok and m > 1:
+                trip = trip[:-3] + [trip[-3], trip[-2]]      # malformed on purpose: the driver reads a short last triple
+                continue
+            cases.append(Case('uvec %s %s %s %d %s' % (head, du, rnd.choice(['incl', 'excl']), m, ' '.join(trip)), 'uvec-' + pat))
+            # the scalar overload with a unit on the same dimension
+            u = rnd.choice(pool + ['Hz'])
+            a = rnd.randrange(0, top)
+            cases.append(Case('upos %s %s %s %s %s' % (head, du, enc(upick(tab, du, coord(a), u)), u, rnd.choice(RULES)), 'upos'))
+        # ---- a long-lived handle follows tick changes made through another handle
+        for _ in range(12 if quick else 120 * scale):
+            k = rnd.choice([1, 2, 3, 5]); k2 = rnd.choice([1, 2, 3, 5, 8])
+            t1 = sorted(set(float(rnd.randrange(-5, 30)) for _ in range(k)))
+            t2 = sorted(set(rnd.choice([float(rnd.randrange(-5, 60)), rnd.uniform(-5, 60)]) for _ in range(k2)))
+            p = rnd.choice(t2 + t1 + [rnd.uniform(-6, 61)])
+            cases.append(Case('stale %d %s %d %s %s %s' % (len(t1), ' '.join(enc(x) for x in t1), len(t2), ' '.join(enc(x) for x in t2),
+                                                         enc(p), rnd.choice(RULES)), 'stale'))
         # ---- out-of-domain probes (the specification does not judge them; UB / crash still counts)
         for p in (float('nan'), float('inf'), float('-inf'), 1e300, 2.0 ** 64, 2.0 ** 70):
             for r in RULES:
